@@ -606,10 +606,11 @@ Definition members_ok (l : list mdecl) : bool := list_eqb mdecl_eqb l model_memb
    resolution selects for each; via = how the argument reaches the selected member *)
 Inductive cform :=
 | FDef | FCopyL | FMoveR | FConvL | FConvR | FConvTemp | FRawC | FDtorF
-| FAssignL | FAssignR | FAssignRaw | FAssignConvL | FAssignConvR.
+| FAssignL | FAssignR | FAssignRaw | FAssignConvL | FAssignConvR
+| FRawNull | FAssignNull.      (* IntrusivePtr<T> x(nullptr);  x = nullptr;  with the literal *)
 Inductive via := VDirect | VTemp (m : meth) | VUnknown.
 Definition all_cforms := [FDef; FCopyL; FMoveR; FConvL; FConvR; FConvTemp; FRawC; FDtorF;
-                          FAssignL; FAssignR; FAssignRaw; FAssignConvL; FAssignConvR].
+                          FAssignL; FAssignR; FAssignRaw; FAssignConvL; FAssignConvR; FRawNull; FAssignNull].
 Definition model_sel (f : cform) : option meth * via :=
   match f with
   | FDef => (Some MDefCtor, VDirect)
@@ -625,6 +626,8 @@ Definition model_sel (f : cform) : option meth * via :=
   | FAssignRaw => (Some MRawAssign, VDirect)
   | FAssignConvL => (Some MMoveAssign, VTemp MConvCtor)   (* x = y, y of another handle type: temporary by the converting ctor *)
   | FAssignConvR => (Some MMoveAssign, VTemp MConvCtor)
+  | FRawNull => (Some MRawCtor, VDirect)             (* nullptr_t -> T* is a standard conversion: the raw-pointer members win *)
+  | FAssignNull => (Some MRawAssign, VDirect)
   end.
 Definition meth_eqb (a b : meth) : bool :=
   match a, b with
